@@ -104,6 +104,10 @@ class QueryPlanner:
         return self.get_predictor(identifier) is not None
 
     def get_predictor(self, identifier):
+        if self.get_cte_result(identifier) is not None:
+            # reference to a planned common table expression that is named like a model
+            return None
+
         name_parts = list(identifier.parts)
 
         version = None
